@@ -80,6 +80,11 @@ def build(case):
         x = np.sort(np.asarray(idnt["tip position"])[
             np.asarray(idnt["segment"]) == 0])
         kw["range_x"] = [float(x[3]), float(x[4])]
+    if st == "unsuccessful-relative":
+        # the first (whole-range) pass succeeds, the last one has too few
+        # points: success is False although fitted parameters exist
+        kw["range_type"] = "relative cp"
+        kw["range_x"] = [-1e-9, 1e-9]
     idnt.fit_model(**kw)
     if st == "edited":
         idnt.fit_properties["weight_cp"] = 0
@@ -264,14 +269,16 @@ def cases(tier):
         cs.append({"kind": "grid", "model": mk, "noise": noise,
                    "spikes": spikes, "n": n, "position": pos,
                    "state": "fitted"})
-    for st in ("fresh", "preprocessed", "edited", "unsuccessful"):
+    for st in ("fresh", "preprocessed", "edited", "unsuccessful",
+               "unsuccessful-relative"):
         for mk in MODEL_E:
             for n in (100, 700):
                 cs.append({"kind": "grid", "model": mk, "noise": 0.01,
                            "spikes": 0, "n": n, "position": "inside",
                            "state": st})
     for f in RECORDED:
-        for st in ("fitted", "preprocessed", "edited", "unsuccessful"):
+        for st in ("fitted", "preprocessed", "edited", "unsuccessful",
+                   "unsuccessful-relative"):
             cs.append({"kind": "grid", "recorded": f, "state": st})
     return cs
 
